@@ -127,6 +127,33 @@ class _Env:
                     out.append("!" + type(e).__name__)
         return out
 
+    def behave_asym(self):
+        """What value propagation does on operators that ONE evaluating backend cannot evaluate and the other can
+        (16-bit integer Max / Min: onnxruntime has no kernel; StringNormalizer where the runtime lacks the locale), always
+        with the SAME operator, element type and shape (fresh constants each time): something remembered about a node
+        signature from the time another backend was selected (a negative cache keyed without the backend) shows here."""
+        import warnings
+
+        import numpy as np
+
+        op = self.op
+        cands = [
+            ("max_i16", lambda: op.max([op.const(np.array([1, 5], np.int16)), op.const(np.array([3, 2], np.int16))])),
+            ("min_u16", lambda: op.min([op.const(np.array([1, 5], np.uint16)), op.const(np.array([3, 2], np.uint16))])),
+            ("max_u16", lambda: op.max([op.const(np.array([[7]], np.uint16)), op.const(np.array([[9]], np.uint16))])),
+            ("add_i16", lambda: op.add(op.const(np.array([1, 5], np.int16)), op.const(np.array([3, 2], np.int16)))),
+        ]
+        out = []
+        with warnings.catch_warnings():
+            warnings.simplefilter("ignore")
+            for name, f in cands:
+                try:
+                    v = getattr(f(), "_value", None)
+                    out.append(f"{name}={'no-value' if v is None else v.value.tolist()}")
+                except Exception as e:  # noqa: BLE001
+                    out.append(f"{name}=!{type(e).__name__}")
+        return "|".join(out)
+
     def read(self):
         """The three globals as model values; -1 for one that is not where it used to be (registered in
         `unobservable`, never raised: the behavioural oracle does not need them)."""
@@ -287,6 +314,7 @@ def run_real(env: _Env, blocks, init, behave=False):
                "raises": b["raises"]}
         if behave:
             rec["bpre"] = env.behave()
+            rec["apre"] = env.behave_asym()
             env.nonce = getattr(env, "nonce", 0) + 1  # a constant never evaluated before in this process
             rec["nonce"] = env.nonce
         records.append(rec)
@@ -296,6 +324,7 @@ def run_real(env: _Env, blocks, init, behave=False):
             log.append(env.read())
             if behave:
                 rec["binside"] = env.behave(nonce=rec["nonce"])
+                rec["ainside"] = env.behave_asym()
                 blog.append(rec["binside"][:3])
             for ib in b["inner"]:
                 run_block(ib)
@@ -337,6 +366,7 @@ def run_real(env: _Env, blocks, init, behave=False):
             if behave:
                 # the constant first evaluated inside the block is evaluated again, byte for byte, after it
                 rec["bpost"] = env.behave(nonce=rec.get("nonce"))
+                rec["apost"] = env.behave_asym()
                 blog.append(rec["bpost"][:3])
 
     for b in blocks:
@@ -386,6 +416,15 @@ def behaviour_oracle(records, baseline):
             bad.append((MANAGERS[1], "behaviour-not-restored", r,
                         f"a computation first made inside the block evaluates to {r['bpost'][3]!r} when repeated after it; "
                         f"the setting in force before the block gives {r['bpre'][1]!r}"))
+        if r.get("apost") is not None and r.get("apre") is not None and r["apost"] != r["apre"]:
+            bad.append((MANAGERS[1], "behaviour-not-restored", r,
+                        f"operators only one backend can evaluate (same operator, element type, shape) propagate {r['apre']!r} "
+                        f"before the block and {r['apost']!r} after it"))
+        if (r["which"] == 1 and r.get("ainside") is not None and baseline is not None and len(baseline) > 3
+                and baseline[3][r["arg"]] is not None and r["ainside"] != baseline[3][r["arg"]]):
+            bad.append((MANAGERS[1], "behaviour-not-in-force-inside", r,
+                        f"inside the block operators only one backend can evaluate propagate {r['ainside']!r}; under the entered "
+                        f"backend alone: {baseline[3][r['arg']]!r}"))
         j = r["which"]
         if r.get("binside") is not None and baseline is not None and r["binside"][j] != baseline[j][r["arg"]]:
             bad.append((MANAGERS[j], "behaviour-not-in-force-inside", r,
@@ -401,6 +440,7 @@ def baselines(env: _Env, ck=None):
     import subprocess
 
     base = [[None] * N_ARGS[0], [None] * N_ARGS[1], [None] * (N_ARGS[2] + 1)]
+    asym = [None] * N_ARGS[1]  # behave_asym under each backend (returned as base[3])
     code = (
         "import sys, json, warnings\n"
         "warnings.simplefilter('ignore')\n"
@@ -412,7 +452,7 @@ def baselines(env: _Env, ck=None):
         "    keep = env.manager(j, k)  # stays referenced: a collected generator manager would run its finally\n"
         "    keep.__enter__()\n"
         "env.prepare_probes()\n"
-        "print(json.dumps(env.behave()[j]))\n"
+        "print(json.dumps([env.behave()[j], env.behave_asym() if j == 1 else None]))\n"
     )
     e = dict(os.environ, PYTHONPATH=f"{core.REPO / 'src'}:{core.VERIF}")
     jobs = [(j, k) for j in range(3) for k in range(len(base[j]))]
@@ -421,10 +461,14 @@ def baselines(env: _Env, ck=None):
     for (j, k), pr in zip(jobs, procs):
         out, err = pr.communicate(timeout=180)
         try:
-            base[j][k] = json.loads(out.strip().splitlines()[-1])
+            got_ = json.loads(out.strip().splitlines()[-1])
+            base[j][k] = got_[0]
+            if j == 1:
+                asym[k] = got_[1]
         except Exception:  # noqa: BLE001
             if ck is not None:
                 ck.broken("correspondence", f"C16 baseline of {MANAGERS[j]}={k} not observable", (err or out)[-300:])
+    base.append(asym)
     return base
 
 
@@ -783,6 +827,12 @@ def run(ck: core.Check):
         ck.cov["write_sites"] = ctx_writes.generate()
     except Exception as e:  # noqa: BLE001
         ck.broken("generated", "C16 write-site inventory", f"{type(e).__name__}: {e}")
+    try:
+        from translator import module_state
+
+        ck.cov["module_state"] = module_state.generate()
+    except Exception as e:  # noqa: BLE001
+        ck.broken("generated", "C16 module-state inventory", f"{type(e).__name__}: {e}")
     ck.lean(["SpoxModel.Props.C16"], audit="SpoxModel.Audit.C16")
     if ck.thorough:
         ck.leanchecker(["SpoxModel.Props.C16"])
@@ -888,6 +938,9 @@ def run(ck: core.Check):
         env.prepare_probes()
         base = baselines(env, ck)
         ck.cov["behaviour_baselines"] = {MANAGERS[j]: base[j] for j in range(3)}
+        ck.cov["behaviour_baselines"]["asymmetric_operators_per_backend"] = base[3] if len(base) > 3 else None
+        if len(base) > 3 and None not in base[3] and len(set(base[3][1:])) < 2:
+            ck.broken("generator", "C16 no operator separates the two evaluating backends", str(base[3]))
         for j in range(3):
             if None not in base[j] and len(set(map(str, base[j]))) < len(base[j]):
                 # the probes must tell the values of a setting apart, or the behavioural tie says nothing
